@@ -1,4 +1,4 @@
-// @unit id=v_recv props=C03,C09,C13,C01,C06,C07,C08,C14,C15,C18 tier=quick
+// @unit id=v_recv props=C03,C09,C13,C01,C06,C07,C08,C14,C15,C18 tier=quick rlimit=60
 // Verus contracts on the real bodies of src/proto/streams/recv.rs, extracted on every run.
 //   level (connection or stream) = (window, available, in_flight):  window = credit the peer still has,
 //   available = window + released-but-unannounced, in_flight = handed out and not released.
@@ -138,7 +138,7 @@ pub open spec fn update_due(fc: FlowControl) -> bool {
 
 impl Recv {
     //@extract src/proto/streams/recv.rs Recv::consume_connection_window
-    //@subst self.flow.send_data(sz).map_err(Error::library_go_away)?;=>match self.flow.send_data(sz) { Ok(()) => {}, Err(e) => { return Err(Error::library_go_away(e)); } }
+    //@subst .map_err(Error::library_go_away)=>.map_err_go_away()
     //@ret r
     //@spec     requires sz_ok(sz) && wf_conn(old(self).flow, old(self).in_flight_data as int),
     //@spec     ensures
@@ -166,7 +166,7 @@ impl Recv {
     //@end
 
     //@extract src/proto/streams/recv.rs Recv::ignore_data
-    //@subst self.release_connection_capacity(sz, &mut None);=>let mut no_task: Option<Waker> = None; self.release_connection_capacity(sz, &mut no_task);
+    //@none_args Waker
     //@ret r
     //@spec     requires sz_ok(sz) && wf_conn(old(self).flow, old(self).in_flight_data as int),
     //@spec     ensures
@@ -219,9 +219,8 @@ impl Recv {
     //@extract src/proto/streams/recv.rs Recv::recv_data
     //@subst frame: frame::Data=>frame: RData
     //@subst stream: &mut store::Ptr=>stream: &mut Stream
-    //@subst self.release_connection_capacity(sz, &mut None);=>let mut no_task: Option<Waker> = None; self.release_connection_capacity(sz, &mut no_task);
-    //@subst let _res = self.release_capacity(padding, stream, &mut None);=>let mut no_task2: Option<Waker> = None; let _res = self.release_capacity(padding, stream, &mut no_task2);
-    //@subst_re stream\s*\.recv_flow\s*\.send_data\(sz\)\s*\.map_err\(proto::Error::library_go_away\)\?;=>match stream.recv_flow.send_data(sz) { Ok(()) => {}, Err(e) => { return Err(Error::library_go_away(e)); } }
+    //@none_args Waker
+    //@subst .map_err(proto::Error::library_go_away)=>.map_err_go_away()
     //@subst payload: frame.into_payload(),=>payload_len: frame.into_payload().len,
     //@ret r
     //@spec     requires
@@ -304,9 +303,10 @@ impl Recv {
     //@subst settings: &frame::Settings=>settings: &settings_frame::Settings
     //@subst store: &mut Store=>store: &mut RStore
     //@subst_re \) -> Result<\(\), proto::Error>=>) -> Result<(), Error>
-    //@subst_re store\.try_for_each\(\|mut stream\| \{\s*stream\s*\.recv_flow\s*\.dec_recv_window\(dec\)\s*\.map_err\(proto::Error::library_go_away\)\?;=>store.iter_begin(); let ghost self0 = *self; loop invariant *self == (Recv { pending_window_updates: self.pending_window_updates, ..self0 }), store.held() == old(store).held(), sz_ok(dec) && dec as int == old_sz - target && self0.init_window_sz == target && target <= 0x7fff_ffff && old_sz <= 0x7fff_ffff && settings.initial_window_size == Some(target), { let mut stream = match store.iter_next(Ghost(old_sz as int)) { Some(s) => s, None => { break; } }; let ghost s0 = stream; match stream.recv_flow.dec_recv_window(dec) { Ok(()) => {}, Err(e) => { assert(false); return Err(Error::library_go_away(e)); } }
-    //@subst_re Ok::<_, proto::Error>\(\(\)\)\s*\}\)\?;\s*\}\s*Ordering::Greater=>proof { assert(stream.recv_flow.w() == s0.recv_flow.w() - dec && stream.recv_flow.a() == s0.recv_flow.a() - dec && stream.in_flight_recv_data == s0.in_flight_recv_data); assert(stream.state.recv_streaming() && update_due(stream.recv_flow) ==> stream.is_pending_window_update); } store.put_back(stream); } } Ordering::Greater
-    //@subst_re store\.try_for_each\(\|mut stream\| \{\s*stream\s*\.recv_flow\s*\.inc_window\(inc\)\s*\.map_err\(proto::Error::library_go_away\)\?;\s*stream\s*\.recv_flow\s*\.assign_capacity\(inc\)\s*\.map_err\(proto::Error::library_go_away\)\?;\s*Ok::<_, proto::Error>\(\(\)\)\s*\}\)\?;=>store.iter_begin(); let ghost self0 = *self; loop invariant *self == self0, store.held() == old(store).held(), sz_ok(inc) && inc as int == target - old_sz && self0.init_window_sz == target && target <= 0x7fff_ffff && old_sz <= 0x7fff_ffff && settings.initial_window_size == Some(target), { let mut stream = match store.iter_next(Ghost(old_sz as int)) { Some(s) => s, None => { break; } }; let ghost s0 = stream; match stream.recv_flow.inc_window(inc) { Ok(()) => {}, Err(e) => { store.put_back(stream); return Err(Error::library_go_away(e)); } } match stream.recv_flow.assign_capacity(inc) { Ok(()) => {}, Err(e) => { assert(false); return Err(Error::library_go_away(e)); } } proof { assert(stream.recv_flow.w() == s0.recv_flow.w() + inc && stream.recv_flow.a() == s0.recv_flow.a() + inc && stream.in_flight_recv_data == s0.in_flight_recv_data); } store.put_back(stream); }
+    //@subst .map_err(proto::Error::library_go_away)=>.map_err_go_away()
+    //@subst_re (?s)Ordering::Less => \{(.*?)store\.try_for_each\(\|mut stream\| \{ ==>> Ordering::Less => {\1 store.iter_begin(); let ghost self0 = *self; loop invariant *self == (Recv { pending_window_updates: self.pending_window_updates, ..self0 }), store.held() == old(store).held() + 0, sz_ok(dec) && dec as int == old_sz - target && self0.init_window_sz == target && target <= 0x7fff_ffff && old_sz <= 0x7fff_ffff && settings.initial_window_size == Some(target), { let mut stream = match store.iter_next(Ghost(old_sz as int)) { Some(s) => s, None => { break; } }; let ghost s0 = stream;
+    //@subst_re Ok::<_, proto::Error>\(\(\)\)\s*\}\)\?;\s*\}\s*Ordering::Greater => \{(.*?)store\.try_for_each\(\|mut stream\| \{ ==>> proof { assert(stream.recv_flow.w() == s0.recv_flow.w() - dec && stream.recv_flow.a() == s0.recv_flow.a() - dec && stream.in_flight_recv_data == s0.in_flight_recv_data); assert(stream.state.recv_streaming() && update_due(stream.recv_flow) ==> stream.is_pending_window_update); } store.put_back(stream); } } Ordering::Greater => {\1 store.iter_begin(); let ghost self0 = *self; loop invariant *self == self0, store.held() == old(store).held() + 0, sz_ok(inc) && inc as int == target - old_sz && self0.init_window_sz == target && target <= 0x7fff_ffff && old_sz <= 0x7fff_ffff && settings.initial_window_size == Some(target), { let mut stream = match store.iter_next(Ghost(old_sz as int)) { Some(s) => s, None => { break; } }; let ghost s0 = stream;
+    //@subst_re Ok::<_, proto::Error>\(\(\)\)\s*\}\)\?;=>proof { assert(stream.recv_flow.w() == s0.recv_flow.w() + inc && stream.recv_flow.a() == s0.recv_flow.a() + inc && stream.in_flight_recv_data == s0.in_flight_recv_data); } store.put_back(stream); }
     //@ret r
     //@spec     requires
     //@spec         old(self).init_window_sz <= 0x7fff_ffff,
@@ -315,7 +315,8 @@ impl Recv {
     //@spec         // C14: our acknowledged SETTINGS govern new streams from now on
     //@spec         settings.initial_window_size is Some ==> final(self).init_window_sz == settings.initial_window_size->Some_0,
     //@spec         settings.initial_window_size is None ==> *final(self) == (Recv { is_extended_connect_protocol_enabled: final(self).is_extended_connect_protocol_enabled, ..*old(self) }),
-    //@spec         final(store).held() == old(store).held(),
+    //@spec         // every visited stream is handed back (on the error path the connection dies: not claimed there)
+    //@spec         r is Ok ==> final(store).held() == old(store).held(),
     //@spec         final(self).flow == old(self).flow && final(self).in_flight_data == old(self).in_flight_data,
     //@end
 }
